@@ -17,6 +17,19 @@ CHECKS = {
              "surrogateescape being byte-transparent (exercised, not proved).",
         tech="Coq proof by structural induction (layout language, chunk list) + source-to-Coq translator + differential correspondence",
     ),
+    "C05": dict(
+        text="Coq theorems: the (argument, codec, record field) tables read from the source of all 51 action and 22 "
+             "condition transcoders equal the hand-transcribed Scenario.chk appendix tables (same type numbers, model "
+             "classes, triples; every other field zero), and for EVERY interpretation of the codecs each argument is "
+             "written to / read from exactly the spec's field, the type byte is the type's own number, no two arguments "
+             "share a field (generic theorems over the table interpreter). A consistent decode/encode swap changes the "
+             "generated table and breaks the equality; sentinel probing against the spec-table interpreter then yields "
+             "the concrete record.",
+        ref="DESIGN.md 5.5",
+        note="Trusted: coq/spec/SpecTrig.v (hand transcription), translate_trig.py (fail-closed), the probe contexts "
+             "of tools/c05.py. Which exception is raised first on doubly-invalid records is not compared.",
+        tech="Coq proof (table equality by computation + generic interpreter lemmas) + source-to-Coq translator + sentinel correspondence",
+    ),
     "C06": dict(
         text="Coq theorems: the layouts read from the transcoders' source equal the hand-transcribed specification layouts "
              "(decode and encode side), and for every layout every scalar reached by a path is the little-endian integer "
